@@ -2,6 +2,6 @@
 from harness import kprops, koracle
 ASSUMPTIONS = ['succeed()/fail() applied to a Process or Condition object is outside the quantifier (the model reproduces the kernel crash it causes)',
                'CPython generator send/throw semantics; the exception copy is type(v)(*v.args)']
-SPEC = [(6, 'outcome'), (2, 'time'), (1, 'cond'), (1, 'intr'), (1, 'victim'), (2, 'plan:outcome'), (1, 'untilfail')]
+SPEC = [(6, 'outcome'), (2, 'time'), (1, 'cond'), (1, 'intr'), (1, 'victim'), (2, 'plan:outcome'), (1, 'untilfail'), (2, 'decided')]
 def run(ctx):
     return kprops.run_kernel(ctx, 'C02', SPEC, 2000, 60000, oracles=[kprops.oracle_time_monotone, koracle.oracle_c02, koracle.oracle_until_failed])
